@@ -251,6 +251,7 @@ func (m *Manager) handleDisconnect(conn *Connection, err error) {
 		peerInfo = m.peerInfos[configAddr]
 	}
 	m.mu.Unlock()
+	verifYield("peer.handleDisconnect.notify")
 
 	// Notify callback
 	if m.cfg.OnPeerDisconnect != nil {
